@@ -49,7 +49,7 @@ func (c *TraitOf[V]) PrepareRead(ctx context.Context, cacheEntry *TraitEntryOf[V
 		}
 	}
 
-	if cacheEntry.E != 0 && cacheEntry.E < now {
+	if e := atomic.LoadInt64(&cacheEntry.E); e != 0 && e < now {
 		if c.Log.logDebug != nil {
 			c.Log.logDebug(ctx, "cache key expired", "name", c.Config.Name)
 		}
@@ -131,7 +131,7 @@ func (e errExpiredOf[V]) Value() V {
 }
 
 func (e errExpiredOf[V]) ExpiredAt() time.Time {
-	return tsTime(e.entry.E)
+	return tsTime(atomic.LoadInt64(&e.entry.E))
 }
 
 func (e errExpiredOf[V]) Is(err error) bool {
